@@ -1,5 +1,6 @@
 import InfOCFModel.Ops
 import InfOCFModel.Diag
+import InfOCFModel.Cnf
 /-!
 Line-protocol driver: one request per line on stdin, one response per line on stdout.
 
@@ -114,6 +115,33 @@ def handle (line : String) : Except String (String × Bool) := do
       let sh (d : Diag) : String := String.join ([d.facts, d.bb, d.bbw, d.comb, d.infinc].map fun o =>
         match o with | none => "-" | some b => bit b)
       pure (sh c ++ "/" ++ sh s, c == s)
+    | "cnf" =>
+      let n ← pnat
+      let aux ← pnat
+      let kind ← tok
+      let c ← pcond
+      let m ← pnat
+      let mut F : CNF := []
+      for _ in [0:m] do
+        let len ← pnat
+        let mut cl : Clause := []
+        for _ in [0:len] do
+          let t ← tok
+          match t.toInt? with
+          | some i => cl := i :: cl
+          | none => throw s!"bad literal {t}"
+        F := cl.reverse :: F
+      let sem : World → Bool := match kind with
+        | "v" => c.ver
+        | "f" => c.fal
+        | _ => fun w => !(c.fal w)
+      pure (if cnfFaithfulB n aux F.reverse sem then "ok" else "bad", true)
+    | "mcs" =>
+      let n ← pnat
+      let hard ← fm
+      let L ← listOf pcond
+      let H := (allWorlds n).filter fun w => hard.eval w
+      pure (showPart (famMin L H), true)
     | "ans" =>
       let n ← pnat
       let wk ← pnat
